@@ -60,8 +60,13 @@ void harness(void)
 	{ MPT_STRUCT(path) pinit = MPT_PATH_INIT; c.base = pinit; } c._cfg._vptr = &h_cfg; c._mt._vptr = 0;
 	v1._addr = &k1; v1._type = 'i'; v2._addr = &k2; v2._type = 'i';
 	mpt_path_set(&p1, CFG_P1, -1); mpt_path_set(&p2, CFG_P2, -1); mpt_path_set(&pr, CFG_RM, -1);
+#ifdef CFG_P2_FIRST
+	n2 = mpt_node_assign(&nodeGlobal, &p2, &v2);
+	n1 = mpt_node_assign(&nodeGlobal, &p1, &v1);
+#else
 	n1 = mpt_node_assign(&nodeGlobal, &p1, &v1);
 	n2 = mpt_node_assign(&nodeGlobal, &p2, &v2);
+#endif
 	V_REQ(n1 != 0 && n2 != 0 && n1 != n2);
 	r = configRemove(&c._cfg, &pr);
 	q1 = lookup(nodeGlobal, CFG_P1); q2 = lookup(nodeGlobal, CFG_P2); qr = lookup(nodeGlobal, CFG_RM);
@@ -73,6 +78,7 @@ void harness(void)
 	V_CHECK("remove: the removed path is absent afterwards, its value released once", qr == 0 && q2 == 0 && M[2].refs == 0);
 	V_CHECK("remove: the other path keeps its value", CFG_P1_BELOW ? q1 == 0 && M[1].refs == 0 : (q1 == n1 && n1->_meta == &M[1].mt && M[1].refs == 1));
 #endif
+	V_CHECK("remove: the remaining top level is well linked (its head has no predecessor)", nodeGlobal == 0 || nodeGlobal->prev == 0);
 	V_COVER("scenario reached", n1 != 0 && n2 != 0);
 	V_CANARY();
 }
